@@ -80,6 +80,13 @@ func TestWriteCorpus(t *testing.T) {
 	keyAxis.NoteNeg = intp(62)
 	write("C08", "note-negative-distinct", "regression: note_negative was overwritten with note (fixed: 22e0c47)", ax(keyAxis, floatp(0), -1, 0, 1, -1, 0))
 
+	twoSubs := ax(AxisDef{Code: 0x10, Type: "key", Note: intp(60), NoteNeg: intp(62), Min: -1, Max: 1}, floatp(0))
+	twoSubs.D.Mappings[0].AnalogSubs = append(twoSubs.D.Mappings[0].AnalogSubs, AnalogSub{Sub: "Touchpad", Default: floatp(0)})
+	twoSubs.D.Mappings[0].Axes = append(twoSubs.D.Mappings[0].Axes, AxisDef{Sub: "Touchpad", Code: 0x10, Type: "key", Note: intp(70), NoteNeg: intp(72), Min: -1, Max: 1})
+	twoSubs.Steps = []Step{{T: "abs", Sub: "", Code: 0x10, Val: 1}, {T: "abs", Sub: "Touchpad", Code: 0x10, Val: 1}, {T: "abs", Sub: "", Code: 0x10, Val: 0},
+		{T: "abs", Sub: "Touchpad", Code: 0x10, Val: -1}, {T: "abs", Sub: "", Code: 0x10, Val: -1}, {T: "abs", Sub: "Touchpad", Code: 0x10, Val: 0}, {T: "abs", Sub: "", Code: 0x10, Val: 0}}
+	write("C08", "same-axis-code-on-two-subhandlers", "regression: the emulated-key tracker was keyed by axis code only (fixed: see known_findings.json)", twoSubs)
+
 	// C09
 	for i, s := range []string{"[[mapping.0]]0", "deadzones = [[1, 2], [\"a\"]]\nexit_sequence = { type = [[1, 2], [\"a\"]] }\n",
 		"collision_mode = \"off\"\n[defaults]\nmapping = \"A\"\nchannel = 1\n[[mapping]]\nname = \"A\"\n[[mapping.analog]]\nsubhandler = \"\"\n[mapping.analog.map]\nABS_X = { type = \"action\", action = \"panic\" }\n",
